@@ -98,10 +98,10 @@ def gen_case(rng):
             args.append(None)
         else:
             args.append(rng.choice(["", "hello", "Bond", "a b"]))
-    if args and rng.random() < 0.04:
+    if args and rng.random() < 0.10:
         # one long argument with line breaks at odd places: longer than any stream buffer, a long tail without a line break
         tail = rng.choice([1000, 1020, 1024, 1030, 2048, 5000, 9000])
-        args[rng.randrange(len(args))] = rng.choice(["head\n", "", "a\nb\n", "\n"]) + "t" * tail + rng.choice(["", "\n", "\nend"])
+        args[rng.randrange(len(args))] = rng.choice(["head\n", "", "a\nb\n", "\n"]) + "t" * tail + rng.choice(["", "", "", "\n", "\nend"])
     parts = []
     uses_width = False
     for s in range(nspec):
@@ -247,6 +247,39 @@ def run(chk):
                 chk.violation("fmt|%s|%s" % ("+".join(sorted(set(feats))), exp[0]),
                               "%s: %s" % (core.short(cases[i].src, 200), bad),
                               {"src": cases[i].src, "expected": exp, "observed": r})
+        # values whose display the documentation does not fix (floats, bytes, chars, containers): the padding rule still
+        # applies to whatever text "{}" gives for them - fill on the right by default, as for every non-integer
+        others = ["1.5", "(-0.25)", "1e21", "100.0", "byte(10)", "byte(255)", "'c'", "[1, 2]", "[]", "map {1: 2}", "null", "true", "\"s\"", "\"\"",
+                  "[1.5, byte(1)]", "3.0e-5", "char(65)", "(0.1 + 0.2)"]
+        specs = [("{:8}", " ", None, 8), ("{:>8}", " ", ">", 8), ("{:<8}", " ", "<", 8), ("{:*>9}", "*", ">", 9), ("{:_<9}", "_", "<", 9), ("{:12}", " ", None, 12),
+                 ("{:1}", " ", None, 1), ("{:0}", " ", None, 0), ("{0:20}", " ", None, 20), ("{:->30}", "-", ">", 30)]
+        ocases = []
+        for k, v in enumerate(others):
+            prog = "let __o = []; let v = %s; push(__o, format(\"{}\", v));" % v + "".join(" push(__o, format(\"%s\", v));" % sp[0] for sp in specs)
+            ocases.append(Case("ok%d" % k, prog, {"globals": "__o", "steps": 10000}))
+        ores = core.run_cases(ocases)
+        for k, v in enumerate(others):
+            r = ores.get("ok%d" % k)
+            if r is None or r.get("outcome") != "ok":
+                if r is not None and r.get("outcome") == "panic":
+                    chk.violation("panic|" + core.panic_site_sig(r["panic"]["loc"], r["panic"]["msg"]), "format of %s panics" % v, {"src": ocases[k].src})
+                else:
+                    chk.inconc("padding family: %s" % ((r or {}).get("outcome")))
+                continue
+            o = canon_dump(r["globals"]["__o"])[1]
+            texts = [x[1] if x[0] == "s" else None for x in o]
+            nat = texts[0]
+            if nat is None or not nat.isascii():
+                chk.inconc("padding family: natural text not usable")
+                continue
+            for (sp, fill, align, width), got in zip(specs, texts[1:]):
+                pad = fill * max(0, width - len(nat))
+                want = pad + nat if align == ">" else nat + pad
+                chk.observed(("padding", v.split("(")[0][:6], sp))
+                if got != want:
+                    chk.violation("fmt-other|%s|%s" % ("default" if align is None else align, "pad" if pad else "nopad"),
+                                  "format(\"%s\", %s) gives %r; \"{}\" gives %r, so the padded text must be %r (non-integers are padded on the right unless < or > is given)" % (
+                                      sp, v, got, nat, want), {"value": v, "spec": sp, "got": got, "natural": nat})
         # end to end through the real binary (both profiles): stdout/stderr bytes
         m = 150 if quick else 1500
         picks = [j for j in jobs if j[0] != "format" and j[3][0] == "ok"][:m]
